@@ -41,6 +41,14 @@ pub struct Scenario {
     /// (column, step) of the auxiliary segment to corrupt while proving
     #[serde(default)]
     pub aux_corrupt: Option<(usize, usize)>,
+    /// commit to a segment that differs from the one proved about: (auxiliary segment?, column, step)
+    #[serde(default)]
+    pub lde_cheat: Option<(bool, usize, usize)>,
+    #[serde(default)]
+    pub lde_cheats: Vec<LdeCheat>,
+    /// commit to constraint composition columns other than the ones the out-of-domain evaluations come from
+    #[serde(default)]
+    pub comp_cheat: bool,
     #[serde(default)]
     pub expect: String,
     #[serde(default)]
@@ -55,6 +63,13 @@ pub struct Scenario {
     pub ccols: usize,
     #[serde(default)]
     pub layers: usize,
+}
+
+#[derive(Deserialize, Clone, Debug)]
+pub struct LdeCheat {
+    pub aux: bool,
+    pub c: usize,
+    pub i: usize,
 }
 
 #[derive(Deserialize, Clone, Debug)]
@@ -120,7 +135,7 @@ pub fn prove_with<B: SField, H: ElementHasher<BaseField = B> + Sync + Send, R: R
     claim: Option<ShapeInputs<B>>,
 ) -> Result<Proof, String> {
     let r = guarded(|| {
-        let prover = ShapeProver::<B, H, R> { options: options_of(sc), shape: sc.shape.clone(), claim, aux_corrupt: sc.aux_corrupt, _p: PhantomData };
+        let prover = ShapeProver::<B, H, R> { options: options_of(sc), shape: sc.shape.clone(), claim, aux_corrupt: sc.aux_corrupt, lde_cheat: sc.lde_cheat, comp_cheat: sc.comp_cheat, _p: PhantomData };
         let trace = crate::shape::ShapeTrace::new(&sc.shape, cols);
         prover.prove(trace)
     });
@@ -289,6 +304,25 @@ impl Job for Sound {
                 Err(e) => (e, json!("n/a")),
             };
             cells.push(json!({"aux": true, "c": k.c, "i": k.i, "violated": k.violated, "ref_valid": ref_valid, "prove": prove, "verify": verdict}));
+        }
+        // ---- the committed segment is not the one the proof is about (openings of a different polynomial) -------------
+        for k in &sc.lde_cheats {
+            let mut sc2 = sc.clone();
+            sc2.lde_cheat = Some((k.aux, k.c, k.i));
+            let (prove, verdict) = match prove_with::<B, H, DefaultRandomCoin<H>>(&sc2, b.cols.clone(), Some(b.inputs.clone())) {
+                Ok(p) => ("ok".to_string(), res_json(&verify_with::<B, H, DefaultRandomCoin<H>>(p, b.inputs.clone()))),
+                Err(e) => (e, json!("n/a")),
+            };
+            cells.push(json!({"lde": true, "aux": k.aux, "c": k.c, "i": k.i, "violated": true, "ref_valid": false, "prove": prove, "verify": verdict}));
+        }
+        if !sc.lde_cheats.is_empty() {
+            let mut sc2 = sc.clone();
+            sc2.comp_cheat = true;
+            let (prove, verdict) = match prove_with::<B, H, DefaultRandomCoin<H>>(&sc2, b.cols.clone(), Some(b.inputs.clone())) {
+                Ok(p) => ("ok".to_string(), res_json(&verify_with::<B, H, DefaultRandomCoin<H>>(p, b.inputs.clone()))),
+                Err(e) => (e, json!("n/a")),
+            };
+            cells.push(json!({"lde": true, "comp": true, "aux": false, "c": 0, "i": 0, "violated": true, "ref_valid": false, "prove": prove, "verify": verdict}));
         }
         out["cells"] = json!(cells);
         // ---- perturbed statements on an honest proof ---------------------------------------------------------
